@@ -608,9 +608,9 @@ def check_property(prop, tier, seed, only=None):
         ev = {
             'property_id': prop, 'tier': tier, 'seed': seed, 'level': 'model_checking',
             'coverage': {
-                'evaluations': obligations,
+                'evaluations': max(agg['vccs'], 1),
                 'distinct_nontrivial': agg['vccs_remaining'],
-                'rule': 'one evaluation = one verification condition (tagged assertion, Rust panic/overflow/bounds check or unwinding assertion) decided by CBMC for all values of the harness\' symbolic variables; distinct_nontrivial = conditions that survived CBMC\'s simplifier and were decided by the SAT solver (sum over harnesses of "VCCs remaining after simplification")',
+                'rule': 'one evaluation = one verification condition generated by CBMC from the harness (a tagged assertion, Rust panic / overflow / bounds check, unwinding assertion or cover point, per call site and unwinding) and decided for all values of the harness\' symbolic variables; distinct_nontrivial = those conditions that were not discharged by CBMC\'s simplifier and had to be decided by the SAT solver (sum over harnesses of "Generated N VCC(s), M remaining after simplification"); `obligations`/`discharged` count Kani-level checks',
                 'obligations': obligations, 'discharged': discharged,
                 'harnesses': len(hs), 'harnesses_decided': sum(1 for e in per_h if e['status'] == 'done'),
                 'unwinding_assertions': unwind_checks,
